@@ -507,3 +507,75 @@ def _replay_connection_lost(case):
         world.loop.close()
     ok = isinstance(err, SimulationError) and "S-0" in str(err)
     return ok, f"sim_process of a simulator whose connection fails with {exc_name} during {where}: ended with {err!r}"
+
+
+def replay_event_beyond_until(case):
+    """C05: A (time-based) feeds a trigger input of B; B has an initial event at a time that may lie at or after
+    `until`.  run() must return (B simply never performs that step); it must not wait forever."""
+    import signal
+    import sys
+    import types
+    import warnings
+    import mosaik
+    import mosaik_api_v3
+    warnings.simplefilter("ignore")
+
+    def meta(t):
+        d = {"api_version": "3.0", "type": t, "models": {"M": {"public": True, "params": [], "attrs": ["x", "i"]}}}
+        if t == "hybrid":
+            d["models"]["M"]["trigger"] = ["i"]
+        return d
+    steps = []
+
+    class Sim(mosaik_api_v3.Simulator):
+        def __init__(self):
+            super().__init__(meta("time-based"))
+
+        def init(self, sid, time_resolution=1.0, typ="time-based", **kw):
+            self.meta, self.typ, self.sid = meta(typ), typ, sid
+            return self.meta
+
+        def create(self, num, model, **kw):
+            return [{"eid": f"e{i}", "type": model} for i in range(num)]
+
+        def step(self, time, inputs, max_advance):
+            steps.append((self.sid, time))
+            return time + 1 if self.typ == "time-based" else None
+
+        def get_data(self, outputs):
+            return {}
+    mod = types.ModuleType("_c05_sims")
+    mod.Sim = Sim
+    sys.modules["_c05_sims"] = mod
+
+    class Hang(Exception):
+        pass
+
+    def on_alarm(*a):
+        raise Hang()
+    w = mosaik.World({"D": {"python": "_c05_sims:Sim"}}, skip_greetings=True)
+    old = signal.signal(signal.SIGALRM, on_alarm)
+    signal.alarm(4)
+    try:
+        a = w.start("D").M()
+        b = w.start("D", typ=case["consumer"]).M()
+        w.connect(a, b, ("x", "i"))
+        w.set_initial_event(b.sid, time=case["initial_event_at"])
+        try:
+            w.run(until=case["until"], print_progress=False)
+            hung = False
+        except Hang:
+            hung = True
+    finally:
+        signal.alarm(0)
+        signal.signal(signal.SIGALRM, old)
+        if not w.loop.is_closed():
+            try:
+                w.loop.close()
+            except Exception:  # noqa: BLE001
+                pass
+    exp = case["initial_event_at"] < case["until"]
+    stepped = ("D-1", case["initial_event_at"]) in steps
+    ok = not hung and (stepped == exp or case["consumer"] == "hybrid")
+    return ok, (f"A (time-based) -> B ({case['consumer']}), initial event of B at {case['initial_event_at']}, until={case['until']}: "
+                f"{'run() still waiting after 4 s' if hung else 'run() returned'}; B stepped at that time: {stepped}")
